@@ -1,6 +1,215 @@
 ----------------------------- MODULE PaneErrors -----------------------------
-(* error-tree algebra and rendering obligations (C07, C08) - filled in below *)
+(***************************************************************************)
+(* Error trees (C07) and their rendering (C08).                            *)
+(*                                                                         *)
+(* Trees as projected by the harness (message wording is carried as opaque *)
+(* tokens and never compared with a prediction):                           *)
+(*   [k |-> "wt"|"wl"|"cf", exp, act |-> value, cause |-> token or ""]     *)
+(*      (wl additionally lo, hi, len)                                      *)
+(*   [k |-> "dup", key |-> atom, aliases |-> <<tokens>>]                   *)
+(*   [k |-> "prod", exp, ch |-> << <<key atom, tree>> .. >>,               *)
+(*         missing |-> <<tokens>>, extra |-> <<tokens>>, act |-> value]    *)
+(*   [k |-> "sum", ch |-> <<tree..>>]                                      *)
+(* Keys are atoms: positions [k|->"int", n|->i] (0-based), names           *)
+(* [k|->"str", s|->token].                                                 *)
+(*                                                                         *)
+(* TreeBad(T, v, tr) is the set of names of violated clauses (empty = the  *)
+(* tree is one the property allows for the rejected conversion of v to T): *)
+(*  node-kind        a composite with an element rejected on its own must  *)
+(*                   be a product node, a union a sum node, else a leaf    *)
+(*  children-keys    children are keyed by exactly the positions / keys    *)
+(*                   whose element is rejected on its own (don't-care      *)
+(*                   elements may or may not appear)                       *)
+(*  missing-fields / extra-fields   exactly the absent required fields /   *)
+(*                   the unknown keys                                      *)
+(*  sum-arity        one child per member, in declaration order            *)
+(*  leaf-actual      every leaf records the offending sub-value itself     *)
+(*  (the recursion through children is what "each child is the tree of     *)
+(*   the element's own type for that sub-value" means structurally; the    *)
+(*   trace clause child-not-standalone compares with recorded trees)       *)
+(***************************************************************************)
 EXTENDS PaneSem
-TreeFails(e)   == {"not-implemented"}
-RenderFails(e) == {"not-implemented"}
+
+KeyInt(i) == [k |-> "int", n |-> i]
+IsLeafT(tr) == tr.k \in {"wt", "wl", "cf"}
+LeafBad(tr, v) == IF ~IsLeafT(tr) THEN {"node-kind"} ELSE IF tr.act = v THEN {} ELSE {"leaf-actual"}
+
+(* an enum reports the value after conversion to the kind of its member values (False as 0): *)
+(* equal under Python's ==, which is what is asked of it here                                 *)
+RECURSIVE AllLeavesAct(_, _)
+AllLeavesAct(tr, v) ==
+  CASE IsLeafT(tr) -> tr.act = v \/ (IsAtom(v) /\ tr.act.k \in AtomKinds /\ PyEq(tr.act, v))
+    [] tr.k = "sum" -> \A i \in DOMAIN tr.ch : AllLeavesAct(tr.ch[i], v)
+    [] OTHER -> FALSE
+
+(* members of a union as typing presents them: nested unions flattened, duplicates dropped *)
+RECURSIVE FlatSeq(_)
+FlatSeq(alts) ==
+  IF alts = <<>> THEN <<>>
+  ELSE (IF Head(alts).k = "union" THEN FlatSeq(Head(alts).alts) ELSE <<Head(alts)>>) \o FlatSeq(Tail(alts))
+Dedup(s) == SelectSeq([i \in DOMAIN s |-> [x |-> s[i], first |-> \A j \in 1..(i - 1) : s[j] # s[i]]],
+                      LAMBDA r : r.first)
+FlatAlts(T) == LET d == Dedup(FlatSeq(T.alts)) IN [i \in DOMAIN d |-> d[i].x]
+
+RECURSIVE TreeBad(_, _, _), ProdBad(_, _, _, _, _, _), ChildBad(_, _, _, _)
+
+(* slots: << [key, T, v] >> the structural children with the key under which a failure is reported *)
+ProdBad(tr, v, slots, missing, extra, dupkeys) ==
+  IF tr.k # "prod" THEN {"node-kind"}
+  ELSE LET rej == {slots[i].key : i \in {j \in DOMAIN slots : Verdict(slots[j].T, slots[j].v) = "R"}} \cup dupkeys
+           dc  == {slots[i].key : i \in {j \in DOMAIN slots : Verdict(slots[j].T, slots[j].v) = "D"}}
+           keys == {tr.ch[i][1] : i \in DOMAIN tr.ch}
+       IN (IF rej \subseteq keys /\ keys \subseteq (rej \cup dc) THEN {} ELSE {"children-keys"})
+          \cup (IF Range(tr.missing) = missing THEN {} ELSE {"missing-fields"})
+          \cup (IF Range(tr.extra) = extra THEN {} ELSE {"extra-fields"})
+          \cup (IF tr.act = v THEN {} ELSE {"product-actual"})
+          \cup UNION { ChildBad(tr.ch[i][1], tr.ch[i][2], slots, dupkeys) : i \in DOMAIN tr.ch }
+
+ChildBad(key, sub, slots, dupkeys) ==
+  IF key \in dupkeys THEN (IF sub.k = "dup" THEN {} ELSE {"duplicate-node"})
+  ELSE LET S == {i \in DOMAIN slots : slots[i].key = key /\ Verdict(slots[i].T, slots[i].v) = "R"} IN
+       IF S = {} THEN {}
+       ELSE IF \E i \in S : TreeBad(slots[i].T, slots[i].v, sub) = {} THEN {}
+       ELSE UNION { TreeBad(slots[i].T, slots[i].v, sub) : i \in S }
+
+NoneRejected(slots) == \A i \in DOMAIN slots : Verdict(slots[i].T, slots[i].v) # "R"
+AllStrKeys(v) == \A i \in DOMAIN v.ps : v.ps[i][1].k = "str"
+
+ClsTreeBad(C, v, tr) ==
+  IF IsMapV(v) THEN
+     IF "struct" \notin Range(C.inf) THEN LeafBad(tr, v)
+     ELSE IF ~AllStrKeys(v) THEN {}
+     ELSE LET b == BindMap(C, v)
+              isFirst(i) == \A j \in b.known : j < i => b.idx[j] # b.idx[i]
+              firsts == {i \in b.known : isFirst(i)}
+              fseq == SelectSeq([i \in DOMAIN v.ps |-> i], LAMBDA i : i \in firsts)
+              slots == [n \in DOMAIN fseq |-> [key |-> v.ps[fseq[n]][1], T |-> C.fs[b.idx[fseq[n]]].t, v |-> v.ps[fseq[n]][2]]]
+              dupkeys == {v.ps[i][1] : i \in b.known \ firsts}
+              missing == {C.fs[j].n : j \in b.missing}
+              extra == IF C.extra = "T" THEN {} ELSE {v.ps[i][1].s : i \in b.extra}
+          IN IF NoneRejected(slots) /\ dupkeys = {} /\ missing = {} /\ extra = {}
+             THEN (IF \A n \in DOMAIN slots : Verdict(slots[n].T, slots[n].v) = "A" THEN LeafBad(tr, v) ELSE {})
+             ELSE ProdBad(tr, v, slots, missing, extra, dupkeys)
+  ELSE IF IsSeqV(v) THEN
+     IF "tuple" \notin Range(C.inf) THEN LeafBad(tr, v)
+     ELSE LET pos == PosFields(C) IN
+          IF Len(v.xs) < ReqCount(C) \/ Len(v.xs) > Len(pos)
+          THEN (IF tr.k # "wl" THEN {"node-kind"}
+                ELSE (IF tr.act = v THEN {} ELSE {"leaf-actual"})
+                     \cup (IF tr.lo = ReqCount(C) /\ tr.hi = Len(pos) /\ tr.len = Len(v.xs) THEN {} ELSE {"length-bounds"}))
+          ELSE LET slots == [i \in DOMAIN v.xs |-> [key |-> KeyInt(i - 1), T |-> pos[i].t, v |-> v.xs[i]]] IN
+               IF NoneRejected(slots)
+               THEN (IF \A n \in DOMAIN slots : Verdict(slots[n].T, slots[n].v) = "A" THEN LeafBad(tr, v) ELSE {})
+               ELSE ProdBad(tr, v, slots, {}, {}, {})
+  ELSE LeafBad(tr, v)
+
+TreeBad(T, v, tr) ==
+  CASE T.k \in ScalarKinds \cup {"lit"} -> LeafBad(tr, v)
+    [] T.k = "enum" -> IF AllLeavesAct(tr, v) THEN {} ELSE {"leaf-actual"}
+    [] T.k \in SeqKinds ->
+         IF ~IsSeqV(v) THEN LeafBad(tr, v)
+         ELSE LET slots == [i \in DOMAIN v.xs |-> [key |-> KeyInt(i - 1), T |-> T.e, v |-> v.xs[i]]] IN
+              IF NoneRejected(slots)
+              THEN (IF \A n \in DOMAIN slots : Verdict(slots[n].T, slots[n].v) = "A" THEN LeafBad(tr, v) ELSE {})
+              ELSE ProdBad(tr, v, slots, {}, {}, {})
+    [] T.k = "tuple" ->
+         IF ~IsSeqV(v) \/ Len(v.xs) # Len(T.es) THEN LeafBad(tr, v)
+         ELSE ProdBad(tr, v, [i \in DOMAIN v.xs |-> [key |-> KeyInt(i - 1), T |-> T.es[i], v |-> v.xs[i]]], {}, {}, {})
+    [] T.k \in DictKinds ->
+         IF ~IsMapV(v) THEN LeafBad(tr, v)
+         ELSE IF ~AllStrKeys(v) THEN {}    \* keys are reported through str(): only string keys are judged
+         ELSE LET vt == IF T.k = "counter" THEN [k |-> "int"] ELSE T.vt
+                  n == Len(v.ps)
+                  slots == [i \in 1..(2 * n) |->
+                              IF i <= n THEN [key |-> v.ps[i][1], T |-> T.kt, v |-> v.ps[i][1]]
+                              ELSE [key |-> v.ps[i - n][1], T |-> vt, v |-> v.ps[i - n][2]]] IN
+              IF NoneRejected(slots)
+              THEN (IF \A i \in DOMAIN slots : Verdict(slots[i].T, slots[i].v) = "A" THEN LeafBad(tr, v) ELSE {})
+              ELSE ProdBad(tr, v, slots, {}, {}, {})
+    [] T.k = "struct" ->
+         IF ~IsMapV(v) THEN LeafBad(tr, v)
+         ELSE IF ~AllStrKeys(v) THEN {}
+         ELSE LET names == {T.fs[i][1] : i \in DOMAIN T.fs}
+                  ftype(nm) == T.fs[CHOOSE j \in DOMAIN T.fs : T.fs[j][1] = nm][2]
+                  kn == SelectSeq(v.ps, LAMBDA p : p[1].s \in names)
+                  slots == [i \in DOMAIN kn |-> [key |-> kn[i][1], T |-> ftype(kn[i][1].s), v |-> kn[i][2]]]
+                  present == {v.ps[i][1].s : i \in DOMAIN v.ps}
+              IN ProdBad(tr, v, slots, names \ present, present \ names, {})
+    [] T.k = "union" ->
+         LET A == FlatAlts(T) IN
+         IF Len(A) = 1 THEN TreeBad(A[1], v, tr)
+         ELSE IF tr.k # "sum" THEN {"node-kind"}
+         ELSE IF Len(tr.ch) # Len(A) THEN {"sum-arity"}
+         ELSE UNION { IF Verdict(A[i], v) = "R" THEN TreeBad(A[i], v, tr.ch[i]) ELSE {} : i \in DOMAIN A }
+    [] T.k = "ann" ->
+         LET r == Verdict(T.t, v) IN
+         IF r = "R" THEN TreeBad(T.t, v, tr)
+         ELSE IF r = "D" THEN {}
+         ELSE IF tr.k # "cf" THEN {"node-kind"} ELSE IF tr.act = v THEN {} ELSE {"leaf-actual"}
+    [] T.k = "sub" -> IF Verdict(T.base, v) = "R" THEN TreeBad(T.base, v, tr) ELSE LeafBad(tr, v)
+    [] T.k = "tvar" -> IF T.var = "bound" THEN TreeBad(T.ts[1], v, tr) ELSE {}
+    [] T.k = "tagged" ->
+         LET te == TagExtract(T, v) IN
+         IF ~te.ok THEN (IF v.k = "map" /\ IsLeafT(tr) /\ tr.act = [v EXCEPT !.f = "dict"] THEN {}   \* an equal dict copy of a Mapping
+                         ELSE LeafBad(tr, v))
+         ELSE LET i == TagVariant(T, te.tag) IN
+              IF i = 0 THEN (IF ~IsLeafT(tr) THEN {"node-kind"} ELSE IF tr.act = te.tag THEN {} ELSE {"leaf-actual"})
+              ELSE IF i = -1 THEN {}
+              ELSE TreeBad(T.vars[i], te.body, tr)     \* the body error is that variant's, and only that one's
+    [] T.k = "cls" -> ClsTreeBad(T, v, tr)
+
+(* trace clause for a `tree` event *)
+TreeFails(e) ==
+  IF Verdict(e.ty, e.val) # "R" THEN {}
+  ELSE IF e.tree.k = "none" THEN {}      \* no ConvertError at all: C01 / C04 report that
+  ELSE TreeBad(e.ty, e.val, e.tree)
+       \cup (* each child equals the tree the element's own type reports for the sub-value alone *)
+          (IF e.tree.k = "prod" /\ e.ty.k \notin {"union", "tagged", "ann", "sub", "tvar", "enum"}
+           THEN LET mine == {e.tree.ch[i][2] : i \in {j \in DOMAIN e.tree.ch : e.tree.ch[j][2].k # "dup"}}
+                    theirs == {e.alone[i].tree : i \in {j \in DOMAIN e.alone :
+                                   e.alone[j].tree.k # "none" /\ Verdict(e.alone[j].ty, e.alone[j].val) = "R"}}
+                    maybe == {e.alone[i].tree : i \in {j \in DOMAIN e.alone : e.alone[j].tree.k # "none"}}
+                IN IF theirs \subseteq mine /\ mine \subseteq maybe THEN {} ELSE {"child-not-standalone"}
+           ELSE {})
+
+-----------------------------------------------------------------------------
+(* C08.  The harness reports, for every string occurring in the tree, the offsets at which   *)
+(* it occurs in str(error) (<<-1>> = the empty string, trivially present).  Needs(rt) is the *)
+(* ordered list of groups of fragments the text must contain, in nesting order: each path    *)
+(* component, then what lies below it; for a leaf its expectation, the offending value, the  *)
+(* message of the causing exception; missing / unexpected / duplicated field names.          *)
+(* rt is the tree with strings replaced by fragment ids:                                     *)
+(*   [k|->"leaf", exp, val, cause] [k|->"dup", key, aliases] [k|->"prod", ch, missing, extra] *)
+(*   [k|->"sum", ch]                                                                         *)
+MinOf(S) == CHOOSE x \in S : \A y \in S : x <= y
+MaxOf(S) == CHOOSE x \in S : \A y \in S : x >= y
+
+RECURSIVE Needs(_, _), NeedsSeq(_, _, _), NeedsCh(_, _)
+NeedsSeq(ch, i, inSum) == IF i > Len(ch) THEN <<>> ELSE Needs(ch[i], inSum) \o NeedsSeq(ch, i + 1, inSum)
+NeedsCh(ch, i) == IF i > Len(ch) THEN <<>> ELSE <<{ch[i][1]}>> \o Needs(ch[i][2], FALSE) \o NeedsCh(ch, i + 1)
+Needs(rt, inSum) ==
+  CASE rt.k = "leaf" -> <<{rt.exp}>> \o (IF inSum THEN <<>> ELSE <<{rt.val}>>) \o (IF rt.cause # "" THEN <<{rt.cause}>> ELSE <<>>)
+    [] rt.k = "dup"  -> <<{rt.key}>> \o (IF rt.aliases = <<>> THEN <<>> ELSE <<Range(rt.aliases)>>)
+    [] rt.k = "prod" -> NeedsCh(rt.ch, 1)
+                        \o (IF rt.missing = <<>> THEN <<>> ELSE <<Range(rt.missing)>>)
+                        \o (IF rt.extra = <<>> THEN <<>> ELSE <<Range(rt.extra)>>)
+    [] rt.k = "sum"  -> LET leaves == {i \in DOMAIN rt.ch : rt.ch[i].k = "leaf"} IN
+                        NeedsSeq(rt.ch, 1, TRUE)
+                        \o (IF leaves = {} THEN <<>> ELSE <<{rt.ch[MaxOf(leaves)].val}>>)
+    [] OTHER -> <<>>
+
+RECURSIVE Sat(_, _, _, _)
+Sat(needs, occ, i, pos) ==
+  IF i > Len(needs) THEN TRUE
+  ELSE LET offs(f) == (CHOOSE p \in Range(occ) : p[1] = f)[2]
+           first(f) == IF offs(f) = <<-1>> THEN pos
+                       ELSE LET S == {o \in Range(offs(f)) : o >= pos} IN IF S = {} THEN -1 ELSE MinOf(S)
+       IN IF \E f \in needs[i] : first(f) = -1 THEN FALSE
+          ELSE Sat(needs, occ, i + 1, MaxOf({first(f) : f \in needs[i]}))
+
+RenderFails(e) ==
+  IF e.tree.k = "none" THEN {}
+  ELSE (IF e.raised = "T" THEN {"render-raised"} ELSE {})
+       \cup (IF e.stable = "F" THEN {"render-unstable"} ELSE {})
+       \cup (IF e.raised = "F" /\ ~Sat(Needs(e.rtree, FALSE), e.occ, 1, 0) THEN {"render-incomplete"} ELSE {})
 =============================================================================
